@@ -246,7 +246,7 @@ var hostile = []string{
 	"DNA", "RNA", "PRI", "circular", "linear", "10", "25", "bp", "aa", "http://www.ncbi.nlm.nih.gov/x?y=1&z=2", "5'-3'", "it's", "[a;b]", "{x}", "100%", "a\\b", "~tilde~", "'quoted'", "\\u003c", "\\u0026", "\\n", "\\\\", "&lt;", "&amp;", "%3C", "$1", "%s",
 }
 
-// Word draws one word: printable ASCII without '"' and without spaces, at most 30 characters.
+// Word draws one word: printable ASCII without '"' and without spaces, usually at most 30 characters.
 func Word(t *rapid.T, name string) string {
 	var w string
 	switch rapid.IntRange(0, 5).Draw(t, name+"_kind") {
@@ -256,6 +256,11 @@ func Word(t *rapid.T, name string) string {
 		w = rapid.StringMatching(`[!#-~]{1,30}`).Draw(t, name+"_ascii")
 	default:
 		w = rapid.StringMatching(`[A-Za-z][A-Za-z0-9,.;:()-]{0,11}`).Draw(t, name+"_plain")
+	}
+	// one word in forty is longer than a line of the flat file has room for (a URL with its query string, a DOI, a
+	// systematic chemical name): it stays in one piece on an over-long line of its own, as NCBI writes it
+	if rapid.IntRange(0, 39).Draw(t, name+"_long_word") == 0 {
+		w = "https://example.org/" + strings.Repeat(strings.Trim(w, "/")+"/", rapid.IntRange(40, 200).Draw(t, name+"_long_word_len")/(len(w)+1)+1) + "x"
 	}
 	if strings.HasSuffix(w, "//") {
 		w += "_" // no line other than a record terminator ends in "//" (stated in the property's quantifier)
